@@ -81,8 +81,11 @@ def file_roundtrip(games_dict):
     except Exception:
         return None
     path = os.path.join(boards.scratch_dir(), "inputs", "__via_file__.py")
-    with open(path, "w") as f:
-        f.write(text)
+    try:
+        with open(path, "w") as f:
+            f.write(text)
+    except UnicodeError:
+        return None
     try:
         return repo().conditionalrewards.read_dict_from_file(path)
     finally:
